@@ -19,12 +19,12 @@ def plan(pid, tier, seed):
     quick = tier == "quick"
     if quick:
         mc = [
-            # every body of <= 3 statements over the 9 evidence symbols x 3 helper shapes (2460 classes)
-            {"module": "TestSmell", "cfg": "TestSmell_MC_quick.cfg", "emit": True, "sample": 700, "properties": PROPS, "timeout": 600},
+            # every body of <= 3 statements over the 10 evidence symbols x 2 helper shapes (2222 classes)
+            {"module": "TestSmell", "cfg": "TestSmell_MC_quick.cfg", "emit": True, "sample": 600, "properties": PROPS, "timeout": 600},
             # 7 annotation shapes x 8 path kinds x 3 helper shapes x bodies of <= 1 statement (1176 classes)
-            {"module": "TestSmell", "cfg": "TestSmell_MC_annos_quick.cfg", "emit": True, "sample": 500, "properties": PROPS, "timeout": 600},
+            {"module": "TestSmell", "cfg": "TestSmell_MC_annos_quick.cfg", "emit": True, "sample": 450, "properties": PROPS, "timeout": 600},
             # the 4/5/6 multiplicity family, bodies of <= 6 statements over 3 symbols (1093 classes)
-            {"module": "TestSmell", "cfg": "TestSmell_MC_mult_quick.cfg", "emit": True, "sample": 400, "properties": PROPS, "timeout": 600},
+            {"module": "TestSmell", "cfg": "TestSmell_MC_mult_quick.cfg", "emit": True, "sample": 350, "properties": PROPS, "timeout": 600},
         ]
     else:
         mc = [
@@ -32,7 +32,7 @@ def plan(pid, tier, seed):
             {"module": "TestSmell", "cfg": "TestSmell_MC_annos.cfg", "emit": True, "sample": None, "properties": PROPS, "timeout": 1800,
              "coverage": True},
             {"module": "TestSmell", "cfg": "TestSmell_MC_mult.cfg", "emit": True, "sample": None, "properties": PROPS, "timeout": 1800},
-            # every body of <= 4 statements over 11 symbols x 3 helper shapes
+            # every body of <= 4 statements over 13 symbols x 4 helper shapes (123 764 classes, 12 000 replayed)
             {"module": "TestSmell", "cfg": "TestSmell_MC_thorough.cfg", "emit": True, "sample": 12000, "properties": PROPS, "timeout": 3600},
         ]
     return {
